@@ -1,4 +1,5 @@
 // PROBE (throw-away), appended to aranya-runtime/src/client/transaction.rs in a scratch copy. Not part of the machinery.
+// Ghost state lives in ONE static struct (see DESIGN section 1: separate 1-byte statics aliased).
 #[cfg(kani)]
 mod verif_kani {
     use alloc::string::String;
@@ -12,18 +13,17 @@ mod verif_kani {
     // ---- ghost event log ----
     #[derive(Copy, Clone, PartialEq, Eq)]
     enum Ev { Begin, Commit, Rollback, Checkpoint, Revert, AddCommand, CallRule, Write, CommitHeads }
-    static mut LOG: [u8; 8] = [255; 8];
-    static mut LOGN: usize = 0;
+    struct Ghost { log: [u8; 8], n: usize, next_id: u8 }
+    static mut G: Ghost = Ghost { log: [255; 8], n: 0, next_id: 1 };
     fn code(e: Ev) -> u8 { match e { Ev::Begin => 0, Ev::Commit => 1, Ev::Rollback => 2, Ev::Checkpoint => 3, Ev::Revert => 4, Ev::AddCommand => 5, Ev::CallRule => 6, Ev::Write => 7, Ev::CommitHeads => 8 } }
-    fn log(e: Ev) { unsafe { if LOGN < 8 { LOG[LOGN] = code(e); } LOGN += 1; } }
-    fn at(i: usize) -> Option<Ev> { unsafe { if i < 8 { match LOG[i] { 0 => Some(Ev::Begin), 1 => Some(Ev::Commit), 2 => Some(Ev::Rollback), 3 => Some(Ev::Checkpoint), 4 => Some(Ev::Revert), 5 => Some(Ev::AddCommand), 6 => Some(Ev::CallRule), 7 => Some(Ev::Write), 8 => Some(Ev::CommitHeads), _ => None } } else { None } } }
-    fn n() -> usize { unsafe { LOGN } }
+    fn log(e: Ev) { unsafe { let g = &mut *core::ptr::addr_of_mut!(G); if g.n < 8 { g.log[g.n] = code(e); } g.n += 1; } }
+    fn at(i: usize) -> Option<Ev> { unsafe { let g = &*core::ptr::addr_of!(G); if i < 8 { match g.log[i] { 0 => Some(Ev::Begin), 1 => Some(Ev::Commit), 2 => Some(Ev::Rollback), 3 => Some(Ev::Checkpoint), 4 => Some(Ev::Revert), 5 => Some(Ev::AddCommand), 6 => Some(Ev::CallRule), 7 => Some(Ev::Write), 8 => Some(Ev::CommitHeads), _ => None } } else { None } } }
+    fn n() -> usize { unsafe { (*core::ptr::addr_of!(G)).n } }
 
     fn any_serr() -> StorageError { if kani::any() { StorageError::IoError } else { StorageError::NoSuchStorage } }
     fn any_perr() -> PolicyError { match kani::any::<u8>() % 3 { 0 => PolicyError::Rejected, 1 => PolicyError::Panic, _ => PolicyError::InternalError } }
     fn any_loc() -> Location { Location::new(SegmentIndex::new(kani::any()), MaxCut::new(kani::any())) }
-    static mut NEXT_ID: u8 = 1;
-    fn any_id() -> CmdId { let mut b = [0u8; 32]; unsafe { b[0] = NEXT_ID; NEXT_ID += 1; } CmdId::from_bytes(b) }
+    fn any_id() -> CmdId { let mut b = [0u8; 32]; unsafe { let g = &mut *core::ptr::addr_of_mut!(G); b[0] = g.next_id; g.next_id += 1; } CmdId::from_bytes(b) }
 
     struct MCmd { id: CmdId, parent: Prior<Address>, has_policy: bool }
     impl Command for MCmd {
@@ -85,14 +85,15 @@ mod verif_kani {
         fn skip_list(&self) -> &[Location] { &[] }
     }
 
-    struct MStorage { heads: HeadSet }
+    struct MStorage { heads: HeadSet, loc_mode: u8 }
     impl Storage for MStorage {
         type Perspective = MPersp;
         type FactPerspective = MPersp;
         type Segment = MSeg;
         type FactIndex = MFI;
         fn get_location(&self, _: Address, _: &mut TraversalBuffer) -> Result<Option<Location>, StorageError> {
-            if kani::any() { Err(any_serr()) } else if kani::any() { Ok(None) } else { Ok(Some(any_loc())) }
+            match self.loc_mode { 0 => Ok(None), 1 => Ok(Some(any_loc())), 2 => Err(any_serr()),
+                _ => if kani::any() { Err(any_serr()) } else if kani::any() { Ok(None) } else { Ok(Some(any_loc())) } }
         }
         fn get_location_from(&self, _: Location, _: Address, _: &mut TraversalBuffer) -> Result<Option<Location>, StorageError> {
             if kani::any() { Err(any_serr()) } else if kani::any() { Ok(None) } else { Ok(Some(any_loc())) }
@@ -111,14 +112,14 @@ mod verif_kani {
         fn write_facts(&mut self, _: MPersp) -> Result<MFI, StorageError> { Ok(MFI) }
     }
 
-    struct MSP { storage: MStorage }
+    struct MSP { storage: MStorage, missing: bool }
     impl StorageProvider for MSP {
         type Perspective = MPersp;
         type Segment = MSeg;
         type Storage = MStorage;
         fn new_perspective(&mut self, _: PolicyId) -> MPersp { MPersp { revert_fails: false, add_fails: false } }
         fn new_storage(&mut self, _: MPersp) -> Result<(GraphId, &mut MStorage), StorageError> { log(Ev::Write); if kani::any() { Err(any_serr()) } else { Ok((GraphId::default(), &mut self.storage)) } }
-        fn get_storage(&mut self, _: GraphId) -> Result<&mut MStorage, StorageError> { Ok(&mut self.storage) }
+        fn get_storage(&mut self, _: GraphId) -> Result<&mut MStorage, StorageError> { if self.missing { Err(StorageError::NoSuchStorage) } else { Ok(&mut self.storage) } }
         fn remove_storage(&mut self, _: GraphId) -> Result<(), StorageError> { Ok(()) }
         fn list_graph_ids(&mut self) -> Result<impl Iterator<Item = Result<GraphId, StorageError>>, StorageError> {
             Ok(core::iter::empty())
@@ -147,10 +148,10 @@ mod verif_kani {
     }
     struct MSink;
     impl Sink<()> for MSink {
-        fn begin(&mut self) { unsafe { assert!(LOGN == 0, "at sink.begin: log empty"); } log(Ev::Begin); unsafe { assert!(LOG[0] == 0, "after begin: LOG[0] is Begin"); } }
+        fn begin(&mut self) { log(Ev::Begin); }
         fn consume(&mut self, _: ()) {}
         fn rollback(&mut self) { log(Ev::Rollback) }
-        fn commit(&mut self) { unsafe { assert!(LOG[0] == 0, "at sink.commit: LOG[0] is Begin"); } log(Ev::Commit) }
+        fn commit(&mut self) { log(Ev::Commit) }
     }
 
     fn stub_evaluate_braid<S, PS, F, MS>(
@@ -189,7 +190,7 @@ mod verif_kani {
         trx.original_heads_offset = if has_offset { Some(HeadSetOffset::new(captured)) } else { None };
         trx.heads.insert(any_id(), Location::new(SegmentIndex::new(1), MaxCut::new(1)));
         trx.heads.insert(any_id(), Location::new(SegmentIndex::new(2), MaxCut::new(1)));
-        let mut sp = MSP { storage: MStorage { heads: HeadSet::default() } };
+        let mut sp = MSP { storage: MStorage { heads: HeadSet::default(), loc_mode: 3 }, missing: false };
         let mut ps = MPS { policy: MPolicy { rule_result_ok: true, action_ok: false }, get_fails: false };
         let mut sink = MSink;
         let mut bufs: RuntimeBuffers<MSeg> = RuntimeBuffers::new();
@@ -211,7 +212,7 @@ mod verif_kani {
         let has_offset: bool = kani::any();
         trx.original_heads_offset = if has_offset { Some(HeadSetOffset::new(7)) } else { None };
         trx.heads.insert(any_id(), Location::new(SegmentIndex::new(1), MaxCut::new(1)));
-        let mut sp = MSP { storage: MStorage { heads: HeadSet::default() } };
+        let mut sp = MSP { storage: MStorage { heads: HeadSet::default(), loc_mode: 3 }, missing: false };
         let mut ps = MPS { policy: MPolicy { rule_result_ok: true, action_ok: false }, get_fails: false };
         let mut sink = MSink;
         let mut bufs: RuntimeBuffers<MSeg> = RuntimeBuffers::new();
@@ -245,7 +246,7 @@ mod verif_kani {
     #[kani::stub(collapse_heads, stub_collapse_heads)]
     fn action_trace() {
         let ok: bool = kani::any();
-        let sp = MSP { storage: MStorage { heads: HeadSet::default() } };
+        let sp = MSP { storage: MStorage { heads: HeadSet::default(), loc_mode: 3 }, missing: false };
         let ps = MPS { policy: MPolicy { rule_result_ok: true, action_ok: ok }, get_fails: kani::any() };
         let mut client = crate::ClientState::new(ps, sp);
         let mut sink = MSink;
@@ -281,7 +282,7 @@ mod verif_kani {
         let has_policy: bool = kani::any();
         let cmd = MCmd { id: cmd_id, parent, has_policy };
         let mut trx: Transaction<MSP, MPS> = Transaction::new(graph_id);
-        let mut sp = MSP { storage: MStorage { heads: HeadSet::default() } };
+        let mut sp = MSP { storage: MStorage { heads: HeadSet::default(), loc_mode: 3 }, missing: false };
         let rule_ok: bool = kani::any();
         let mut ps = MPS { policy: MPolicy { rule_result_ok: rule_ok, action_ok: false }, get_fails: false };
         let mut sink = MSink;
@@ -303,6 +304,41 @@ mod verif_kani {
         }
     }
 
+    fn stub_synthetic_head<S, PS>(_storage: &S, _ps: &PS, _heads: &HeadSet) -> Result<Address, ClientError>
+    where S: Storage, PS: PolicyStore {
+        if kani::any() { Err(ClientError::InitError) } else {
+            let mut b = [0u8; 32]; b[0] = kani::any();
+            Ok(Address { id: CmdId::from_bytes(b), max_cut: MaxCut::new(kani::any()) })
+        }
+    }
+
+    /// C19: "no sync" only if same hello head or head already present; missing graph => sync.
+    #[kani::proof]
+    #[kani::unwind(34)]
+    #[kani::stub(synthetic_head, stub_synthetic_head)]
+    fn should_sync_on_hello_contract() {
+        let missing: bool = kani::any();
+        let loc_mode: u8 = kani::any();
+        kani::assume(loc_mode <= 2);
+        let sp = MSP { storage: MStorage { heads: HeadSet::default(), loc_mode }, missing };
+        let ps = MPS { policy: MPolicy { rule_result_ok: true, action_ok: false }, get_fails: false };
+        let mut client = crate::ClientState::new(ps, sp);
+        let mut hb = [0u8; 32]; hb[0] = kani::any();
+        let head = Address { id: CmdId::from_bytes(hb), max_cut: MaxCut::new(kani::any()) };
+        let mut buf = TraversalBuffer::new();
+        let r = client.should_sync_on_hello(GraphId::default(), head, &mut buf);
+        if missing { assert!(matches!(r, Ok(true))); }
+        if matches!(r, Ok(false)) {
+            assert!(!missing);
+            // either hello_head == head (cannot observe the stub's value here) or the head was found
+            kani::cover!(loc_mode == 0, "no-sync via equal hello head");
+            kani::cover!(loc_mode == 1, "no-sync via present head");
+        }
+        if loc_mode == 0 && matches!(r, Ok(false)) { /* must be equal-hello-head case */ }
+        if loc_mode == 1 && !missing { assert!(!matches!(r, Ok(true))); }
+        core::mem::forget(r); core::mem::forget(client);
+    }
+
     /// C06: add_single trace contract, perspective already positioned at parent.
     #[kani::proof]
     #[kani::unwind(34)]
@@ -313,7 +349,7 @@ mod verif_kani {
         trx.perspective = Some(MPersp { revert_fails: kani::any(), add_fails: kani::any() });
         trx.phead = Some(parent.id);
         let old_phead = trx.phead;
-        let mut storage = MStorage { heads: HeadSet::default() };
+        let mut storage = MStorage { heads: HeadSet::default(), loc_mode: 3 };
         let rule_ok: bool = kani::any();
         let mut ps = MPS { policy: MPolicy { rule_result_ok: rule_ok, action_ok: false }, get_fails: kani::any() };
         let mut sink = MSink;
